@@ -252,7 +252,7 @@ def source_literals(fnode):
     return out + list(CLOSER) + list(CLOSER.values()) + list(FUNCS)
 
 
-_HOM_NAMES = ("count_lbrace", "count_rbrace", "count_nonspace")
+_HOM_NAMES = ("count_lbrace", "count_rbrace", "count_nonspace", "str_join")
 _MENTIONS: dict = {}
 
 
@@ -601,7 +601,7 @@ def m_partition(ex, st, args, kwargs, node):
 
 
 def zero_sums():
-    return {"n": z3.IntVal(0), "LB": z3.IntVal(0), "RB": z3.IntVal(0), "NW": z3.IntVal(0), "cat": sval("")}
+    return {"n": z3.IntVal(0), "LB": z3.IntVal(0), "RB": z3.IntVal(0), "NW": z3.IntVal(0), "cat": sval(""), "items": z3.Empty(SS)}
 
 
 def cat2(a, b):
@@ -611,6 +611,27 @@ def cat2(a, b):
     if z3.is_string_value(b) and z3_str_value(b) == "":
         return a
     return z3.Concat(a, b)
+
+
+SS = z3.SeqSort(S)                                          # round 7: the ITEMS ghost of a list of str (a sequence of strings)
+SJOIN = z3.Function("str_join", S, SS, S)                   # sep.join(items) as a term over the items (never unfolded)
+
+
+def seqcat(a, b):
+    if a.eq(z3.Empty(SS)):
+        return b
+    if b.eq(z3.Empty(SS)):
+        return a
+    return z3.Concat(a, b)
+
+
+def items_of(d):
+    """the ITEMS ghost of a list summary (an unconstrained sequence when the summary never recorded it)"""
+    if d is None:
+        return None
+    if d.get("items") is None:
+        d["items"] = z3.Const(fresh_name("items"), SS)
+    return d["items"]
 
 
 def cat_of(d):
@@ -634,10 +655,11 @@ def sums_of(st, ref):
         d = {"n": z3.IntVal(len(o.data))}
         for h in HN:
             d[h] = z3.Sum([hom(h, x.t) for x in o.data]) if o.data else z3.IntVal(0)
-        c_ = sval("")
+        c_, i_ = sval(""), z3.Empty(SS)
         for x in o.data:
             c_ = cat2(c_, x.t)
-        d["cat"] = c_
+            i_ = seqcat(i_, z3.Unit(x.t))
+        d["cat"], d["items"] = c_, i_
         return d
     return None
 
@@ -657,6 +679,8 @@ def m_join(ex, st, args, kwargs, node):
     st.assume(z3.Implies(n == 0, j == sval("")))
     if sep.const() == "":
         st.assume(j == cat_of(sm))          # "".join(xs) IS the concatenation of the items (content ghost, round 7)
+    else:
+        st.assume(j == SJOIN(sval(sep.const()), items_of(sm)))      # names the join by its separator and items (definition)
     st.ghost["joins"] = st.ghost.get("joins", ()) + ((sep.const(), lst.ref, j),)
     return [(st, VStr(j))]
 
@@ -679,6 +703,24 @@ def install(reg):
 
 
 # ---- pack-local executor ---------------------------------------------------------
+def direct_worker_call(nodes):
+    """does the loop body call the worker (or a helper it is split into) outside any inner loop / comprehension / def?
+    (decided on the syntax BEFORE the body runs: a content claim is made for the loop on every path or on none)"""
+    names = {PE_NAME} | set(HELPERS)
+
+    def rec(n):
+        if isinstance(n, ast.Call) and isinstance(n.func, ast.Name) and n.func.id in names:
+            return True
+        for ch in ast.iter_child_nodes(n):
+            if isinstance(ch, (ast.For, ast.While, ast.ListComp, ast.SetComp, ast.DictComp, ast.GeneratorExp, ast.FunctionDef,
+                               ast.Lambda, ast.AsyncFunctionDef)):
+                continue
+            if rec(ch):
+                return True
+        return False
+    return any(rec(n) for n in nodes if not isinstance(n, (ast.For, ast.While, ast.FunctionDef, ast.AsyncFunctionDef)))
+
+
 def own_nodes(fnode, types):
     """nodes of `types` in fnode, not inside nested function definitions, in source order"""
     out = []
@@ -804,6 +846,7 @@ class C19Executor(Executor):
         for h in HN:
             d[h] = d[h] + hom(h, v.t)
         d["cat"] = cat2(cat_of(w.data), v.t)
+        d["items"] = seqcat(items_of(w.data), z3.Unit(v.t))
         w.data = d
 
     def is_strlist(self, st, ref):
@@ -949,6 +992,7 @@ class C19Executor(Executor):
                 for k in d:
                     st.assume(d[k] >= 0)
                 d["cat"] = z3.String(fresh_name(f"acc{ref}.cat"))
+                d["items"] = z3.Const(fresh_name(f"acc{ref}.items"), SS)
                 st.heap[ref] = HeapObj("slist", d, None, o.fresh)
             else:
                 st.heap[ref] = HeapObj("unk", None, o.cls, False)
@@ -987,7 +1031,7 @@ class C19Executor(Executor):
         entry = st.fork()
         inv = spec.inv if spec is not None else None
         accs = sorted(r for r in (set(self.mutated_refs(nodes, st)) | set(accs_extra)) if self.is_strlist(st, r))
-        extra = {"accs": accs, "svars": self.string_accumulators(st, nodes)}
+        extra = {"accs": accs, "svars": self.string_accumulators(st, nodes), "calls_worker": direct_worker_call(nodes)}
         src = it.tag if isinstance(it, VSeq) and isinstance(it.tag, dict) else None
         for r in accs:                                        # which sequence the items of this list come from
             if ("comp_src", r) not in st.ghost:
@@ -1220,10 +1264,12 @@ def content_conj(lc):
     iteration may drop it only when it is the empty string).  An iteration with no / several worker calls, or a call on
     something else than child i -> False (candidate; the native replayer decides).  None: not such a loop."""
     it = lc.seq
+    if isinstance(it, VSeq) and isinstance(it.tag, dict) and it.tag.get("findall") is not None:
+        return items_conj(lc)
     if not (isinstance(it, VExt) and it.sort == "Element"):
         return None
     pairs = acc_pairs(lc)
-    if len(pairs) != 1 or pairs[0][0] is None or pairs[0][1] is None:
+    if len(pairs) != 1 or pairs[0][0] is None or pairs[0][1] is None or not lc.extra.get("calls_worker"):
         return None
     e = it.t
     CH = lc.extra.get("chcat")
@@ -1246,6 +1292,49 @@ def content_conj(lc):
             return z3.BoolVal(False)
         lc.st.assume(CH(e, lc.i) == z3.Concat(CH(e, i0), rv.t))
     return now == cat2(ent, CH(e, lc.i))
+
+
+def items_conj(lc):
+    """the same for a loop / comprehension over `e.findall(T)` whose ONE accumulator is a list of str (operands of m:d): history
+        RS(e, 0) = []      RS(e, i+1) = RS(e, i) ++ [r_i]      r_i = result of the ONE worker call of iteration i, made on item i
+    invariant   items(accumulator) == items(accumulator at loop entry) ++ RS(e, i).   None: not such a loop (no claim)."""
+    it = lc.seq
+    e, path = it.tag["findall"]
+    accs = lc.extra.get("accs", ())
+    if len(accs) != 1 or lc.extra.get("svars"):
+        return None
+    now, ent = sums_of(lc.st, accs[0]), sums_of(lc.entry, accs[0])
+    if now is None or ent is None:
+        return None
+    n_ent = len([x for x in lc.entry.ghost.get("rcalls", ()) if x[0] == PE])
+    new = [x for x in lc.st.ghost.get("rcalls", ()) if x[0] == PE][n_ent:]
+    if not lc.extra.get("calls_worker"):
+        return None                                       # a loop whose body has no worker call of its own: no content claim
+    RS = lc.extra.get("rseq")
+    if RS is None:
+        RS = lc.extra["rseq"] = z3.Function(fresh_name("operand_results"), El, I, SS)
+    known = lc.st.ghost.get("item_loops", ())
+    if not any(x[2].eq(RS) for x in known):
+        lc.st.ghost["item_loops"] = known + ((e, path, RS),)
+    lc.st.assume(RS(e, z3.IntVal(0)) == z3.Empty(SS))
+    if z3.is_add(lc.i):
+        i0 = z3.simplify(lc.i - 1)
+        if len(new) != 1:
+            return z3.BoolVal(False)
+        (_t, am, rv) = new[0]
+        a = next(iter(am.values()))
+        if not (isinstance(a, VExt) and a.t.eq(it.elem(i0).t) and isinstance(rv, VStr)):
+            return z3.BoolVal(False)
+        lc.st.assume(RS(e, lc.i) == z3.Concat(RS(e, i0), z3.Unit(rv.t)))
+    return items_of(now) == seqcat(items_of(ent), RS(e, lc.i))
+
+
+def operands_in_order(c, e, child, sep):
+    """sep.join(results of the worker on every `child` child of e, in order), from the one item loop over e.findall(child)"""
+    loops = [x for x in c.st.ghost.get("item_loops", ()) if x[0].eq(e) and x[1] == Q(child)]
+    if len(loops) != 1:
+        return z3.String(fresh_name("no-unique-loop-over-the-operands"))
+    return SJOIN(sval(sep), loops[0][2](e, NFINDALL(e, sval(Q(child)))))
 
 
 def content_of_children(c, e):
@@ -1548,6 +1637,18 @@ def contracts(reg):
         v = A0(c)
         return SIZE(v.t) if isinstance(v, VExt) else z3.IntVal(0)
 
+    def pe_d_operands(c):
+        """round 7: the operands of a delimiter are rendered each once, in document order, joined by ', ' between the delimiters"""
+        ev = A0(c)
+        if not verifying(c) or not isinstance(ev, VExt) or not isinstance(c.result, VStr):
+            return z3.BoolVal(True)
+        committed = path_tag(c)
+        if committed is not None and committed != "d":
+            return z3.BoolVal(True)
+        e = ev.t
+        left, right = own_val(e, "dPr", "begChr", "("), own_val(e, "dPr", "endChr", ")")
+        return z3.Implies(lname(e) == sval("d"), c.result.t == cat(left, operands_in_order(c, e, "e", ", "), right))
+
     def pe_default(c):
         """round 7: every element that is neither a structure nor a skipped property (m:r, m:e, m:num, m:oMath, unknown
         wrappers ...) is rendered as the results of the worker on its children, each once, in document order"""
@@ -1579,7 +1680,8 @@ def contracts(reg):
             ("no-lone-brace", pe_aux),
             ("None-is-empty", pe_none),
             ("property-tags-skipped", pe_skip),
-        ] + [(f"template.{t}", template(t)) for t in STRUCT_TAGS] + [("template.default-children-in-order", pe_default)],
+        ] + [(f"template.{t}", template(t)) for t in STRUCT_TAGS] + [("template.default-children-in-order", pe_default),
+                                                                      ("template.d-operands-in-order", pe_d_operands)],
         loops={"*": LoopSpec(inv=conv_loop_inv)},
         note="recursive; verified against its own contract at every recursive call",
     ))
